@@ -9,6 +9,7 @@ import (
 	"sync"
 
 	"github.com/thanos-community/promql-engine/execution/model"
+	"github.com/thanos-community/promql-engine/verifhook"
 
 	"github.com/prometheus/prometheus/model/labels"
 )
@@ -57,7 +58,9 @@ func (c *concurrencyOperator) Next(ctx context.Context) ([]model.StepVector, err
 		go c.drainBufferOnCancel(ctx)
 	})
 
+	verifhook.Yield("conc.next.recv")
 	r, ok := <-c.buffer
+	verifhook.Yield("conc.next.recvd")
 	if !ok {
 		return nil, nil
 	}
@@ -69,29 +72,40 @@ func (c *concurrencyOperator) Next(ctx context.Context) ([]model.StepVector, err
 }
 
 func (c *concurrencyOperator) pull(ctx context.Context) {
+	defer verifhook.Go("conc.pull", 0)()
 	defer close(c.buffer)
 
 	for {
+		verifhook.Yield("conc.pull.loop")
 		select {
 		case <-ctx.Done():
+			verifhook.Yield("conc.pull.send")
 			c.buffer <- maybeStepVector{err: ctx.Err()}
+			verifhook.Yield("conc.pull.sent")
 			return
 		default:
 			r, err := c.next.Next(ctx)
 			if err != nil {
+				verifhook.Yield("conc.pull.send")
 				c.buffer <- maybeStepVector{err: err}
+				verifhook.Yield("conc.pull.sent")
 				return
 			}
 			if r == nil {
 				return
 			}
+			verifhook.Yield("conc.pull.send")
 			c.buffer <- maybeStepVector{stepVector: r}
+			verifhook.Yield("conc.pull.sent")
 		}
 	}
 }
 
 func (c *concurrencyOperator) drainBufferOnCancel(ctx context.Context) {
+	defer verifhook.Go("conc.drain", 0)()
 	<-ctx.Done()
+	verifhook.Yield("conc.drain.woke")
 	for range c.buffer {
+		verifhook.Yield("conc.drain.item")
 	}
 }
